@@ -402,11 +402,16 @@ def visible_disk(objdir: str):
         st.close()
 
 
-def observe_store(st):
+def observe_store(st, strict=False):
+    """(sorted hex ids the store lists, bad: ids that are unreadable or hash to another name).
+    strict: let errors of the listing itself and MemoryError / RecursionError propagate (read paths, where the
+    caller classifies them); otherwise they are recorded as unreadable."""
     bad = []
     try:
         ids = sorted(x.decode() for x in st)
     except Exception as e:       # noqa: BLE001  (the store cannot even be listed)
+        if strict:
+            raise
         return [], ["<listing>:unreadable:" + type(e).__name__]
     for h in ids:
         try:
@@ -414,6 +419,8 @@ def observe_store(st):
             if oid(t, raw).hex() != h:
                 bad.append(h + ":misnamed")
         except Exception as e:       # noqa: BLE001
+            if strict and isinstance(e, (MemoryError, RecursionError)):
+                raise
             bad.append(h + ":unreadable:" + type(e).__name__)
     return ids, bad
 
